@@ -3,4 +3,5 @@
 From Burrow Require Import Int64 Notifier.
 Require Import ExtrOcamlBasic.
 Extraction "model.ml"
-  mk_mod lists_accept c_init run_gen run group_of on_response on_response_gen state_at calls_at.
+  mk_mod lists_accept c_init run_gen run group_of has_record ev_response on_event_gen on_event on_response on_response_gen
+  on_refresh on_clusters state_at calls_at.
